@@ -115,6 +115,7 @@ class PyExec:
 
     def __init__(self):
         self.pool = {}
+        self.snaps = {}
 
     def state(self, h):
         return canon_doc(self.pool[h].toJson())
@@ -187,6 +188,9 @@ class PyExec:
                 hgutil.relativeTolerance, hgutil.absoluteTolerance = old
         if k == "drop":
             P.pop(op[1], None)
+            return "ok"
+        if k == "snap":
+            self.snaps[op[1]] = self.state(op[2])
             return "ok"
         raise ValueError(op)
 
@@ -266,16 +270,27 @@ def expand(op, py):
     return op
 
 
-def run_history(ops, model, check_states=True, py=None):
+PY_ONLY_OPS = {"snap", "pickle", "jsonstr", "jsonfile"}
+
+
+def run_history(ops, model, check_states=True, py=None, replies=None, model_ops=None):
     """Run `ops` on a fresh implementation pool and on `model` (reset first).
     Returns (divergence | None, py_exec).  After every mutating op the serialised state of every
-    handle the op touched is compared."""
+    live handle is compared (so interference with an untouched handle shows up as well).
+    `replies` (a list) receives the implementation's reply to every op."""
     py = py or PyExec()
     model.d.send(["$reset"])
     live = []
     for i, op in enumerate(ops):
         op = expand(op, py)
-        rp = py.apply(op)
+        try:
+            rp = py.apply(op)
+        except Exception as e:  # noqa: BLE001
+            rp = "crash:" + type(e).__name__ + ":" + str(e)[:200]
+        if replies is not None:
+            replies.append(rp)
+        if op[0] in PY_ONLY_OPS:
+            continue
         rm = model.apply(op)
         d = same_reply(op, rp, rm)
         if d:
@@ -288,7 +303,11 @@ def run_history(ops, model, check_states=True, py=None):
             for h in live:
                 if h not in py.pool:
                     continue
-                d = diff_doc(py.state(h), model.state(h))
+                try:
+                    sp = py.state(h)
+                except Exception as e:  # noqa: BLE001
+                    return {"index": i, "op": _brief(op), "what": "toJson of %s raised %s: %s" % (h, type(e).__name__, e)}, py
+                d = diff_doc(sp, model.state(h))
                 if d:
                     return {"index": i, "op": _brief(op), "what": "state of %s after op: %s" % (h, d)}, py
     return None, py
